@@ -75,6 +75,16 @@ def run(ctx: core.Ctx):
                  sample=dict(n=nobs, days=len(template), labels=kind, family=fam, out=np.asarray(out)[:6].tolist()))
         ctx.count(fam)
         ctx.count(f"days<={1 << (len(template) - 1).bit_length()}")
+        # the template is a 0/1 mask: however it is stored (float64 as documented, float32, integer or bool masks are up-cast by the
+        # gufunc machinery) the result is the same
+        if k % 3 == 0:
+            for tdt in ("uint8", "bool", "float32", "int64"):
+                alt = tinterpolate(x, template.astype(tdt), labels, tout)
+                ctx.count("template dtype variants")
+                if not np.array_equal(np.asarray(alt), np.asarray(out)):
+                    ctx.fail("tinterpolate", dict(inp, template_dtype=tdt), np.asarray(alt).tolist(), np.asarray(out).tolist(),
+                             note="the result does not depend on the storage type of the 0/1 template")
+                    break
         if not (np.array_equal(template, t0) and np.array_equal(labels, l0)):
             ctx.fail("tinterpolate", inp, "inputs modified", "template and labels are left unmodified")
         if len(out) != nruns:
